@@ -257,7 +257,17 @@ def synthetic(rng):
     if rng.random() < 0.2:
         x[rng.integers(n)] = np.nan
     obj = float(np.dot(r, r))
+    u = rng.random()
+    if u < 0.08:
+        # "falsy" numbers that are perfectly good values: exact zeros (a zero-residual solution), a zero in x, flag 0, nf/nx small
+        r = np.zeros(m); obj = 0.0
+        if rng.random() < 0.5:
+            x = np.zeros(n)
+    elif u < 0.12:
+        obj = float(gen.pick(rng, [-0.0, 5e-324, 1e-300, 1.7976931348623157e308]))
     jac = rng.normal(size=(m, n)) if rng.random() < 0.6 else None
+    if jac is not None and u < 0.03:
+        jac = np.zeros((m, n))
     if jac is not None and rng.random() < 0.3:
         jac[rng.integers(m), rng.integers(n)] = np.nan
     en = None if (jac is None or rng.random() < 0.2) else rng.permutation(200)[:n + 1].astype(int)
